@@ -11,11 +11,27 @@ def main():
     bad = vcheck.grep_gate()
     if bad:
         print("gate:", bad); sys.exit(1)
+    log = lambda s: print("[setup %.0fs] %s" % (time.time() - t0, s), flush=True)
+    # plug-ins with a pre_proofs hook regenerate Coq sources (C03: the call graph,
+    # coq/RtGraph/Graph_gen.v, which is not under version control) before the build
+    import importlib
+    for f in sorted(os.listdir(os.path.join(vcheck.VERIF, "tools", "props"))):
+        if f.endswith(".py") and f[0] == "C":
+            plug = importlib.import_module("props." + f[:-3])
+            if hasattr(plug, "pre_proofs"):
+                ctx = dict(pid=f[:-3], tier="quick", seed=1, log=log, VERIF=vcheck.VERIF, REPO=vcheck.REPO,
+                           WORK=vcheck.WORK, COQ=vcheck.COQ, sh=vcheck.sh, build_lib=vcheck.build_lib,
+                           build_harness=vcheck.build_harness, run_lines=vcheck.run_lines,
+                           check_proofs=vcheck.check_proofs, build_driver=vcheck.build_driver,
+                           NCPU=vcheck.NCPU, BuildError=vcheck.BuildError)
+                try:
+                    plug.pre_proofs(ctx)
+                except vcheck.BuildError as e:
+                    print("pre_proofs of %s: %s" % (f[:-3], str(e)[-600:]))
     vcheck.ensure_coq_makefile()
     rc = subprocess.call(["timeout", "3400", "make", "-j%d" % vcheck.NCPU], cwd=vcheck.COQ)
     if rc != 0:
         print("coq build failed"); sys.exit(1)
-    log = lambda s: print("[setup %.0fs] %s" % (time.time() - t0, s), flush=True)
     props = sorted(f[:-3] for f in os.listdir(os.path.join(vcheck.VERIF, "tools", "props"))
                    if f.endswith(".py") and f[0] == "C")
     variants = set()
